@@ -144,15 +144,3 @@ Definition strings_ok (L : lang) (p : profile) : Prop :=
   /\ (forall t f, fun1_name p t = Some f -> var_ok f = true)
   /\ (forall t f, fun2_name p t = Some f -> var_ok f = true).
 
-Lemma strings_C : strings_ok LC profile_C.
-Proof.
-  unfold strings_ok. repeat match goal with |- _ /\ _ => split end;
-    try (vm_compute; reflexivity);
-    intros t f; destruct t; vm_compute; intros H; try discriminate; inv H; reflexivity.
-Qed.
-Lemma strings_Py : strings_ok LPy profile_Py.
-Proof.
-  unfold strings_ok. repeat match goal with |- _ /\ _ => split end;
-    try (vm_compute; reflexivity);
-    intros t f; destruct t; vm_compute; intros H; try discriminate; inv H; reflexivity.
-Qed.
